@@ -5,6 +5,15 @@ VERIF = os.path.dirname(os.path.dirname(os.path.abspath(__file__)))
 props = [json.loads(l) for l in open(os.path.join(VERIF, "properties.jsonl"))]
 
 CLAIMED = {
+    "C12": dict(
+        text="Convert.tla defines aggregation/disaggregation through calendar membership (Calendar.tla) with the documented methods in exact "
+             "arithmetic; TLC checks that groups tile the source and that aggregate(disaggregate(x)) = x for the matching method pairs on every "
+             "scenario; Arip.tla solves the documented constrained smoothing problem exactly (fraction-free elimination of the KKT system, "
+             "solution verified by TLC). Every scenario is replayed through irispie.aggregate/disaggregate.",
+        note="Trusted: TLC, the TLA+ calendar. Bounds: starts in every segment / around month, quarter, year ends and leap days, 2-4 lengths, "
+             "7 missing/variant patterns; arip with <= 8 high-frequency periods, integer-rate data for the rate form. min/max with a partly "
+             "missing group unspecified. One known finding (regular -> DAILY disaggregation).",
+        design="5/C12", technique="TLA+ spec (Convert, Arip over Calendar/LinSolve) model-checked by TLC; every TLC-computed scenario replayed into irispie"),
     "C10": dict(
         text="Series.tla defines every public operation as a transformer of the (period, variant) -> value map; TLC checks the laws of the "
              "property (write frame, read, purity of functional forms, canonical trimmed span, shift exactness) on every small series state x "
